@@ -26,15 +26,15 @@ type workerViolation struct {
 }
 
 type workerState struct {
-	Evals      int64                       `json:"evals"`
-	Counters   map[string]int64            `json:"counters"`
-	Distinct   map[string][]string         `json:"distinct"`
-	Nontrivial []string                    `json:"nontrivial"`
-	Samples    []any                       `json:"samples"`
-	Incon      map[string]int64            `json:"incon"`
-	Violations []workerViolation           `json:"violations"`
-	Broken     []string                    `json:"broken"`
-	Extra      map[string]any              `json:"extra"`
+	Evals      int64               `json:"evals"`
+	Counters   map[string]int64    `json:"counters"`
+	Distinct   map[string][]string `json:"distinct"`
+	Nontrivial []string            `json:"nontrivial"`
+	Samples    []any               `json:"samples"`
+	Incon      map[string]int64    `json:"incon"`
+	Violations []workerViolation   `json:"violations"`
+	Broken     []string            `json:"broken"`
+	Extra      map[string]any      `json:"extra"`
 }
 
 var workerOut = os.Getenv("VERIF_WORKER_OUT")
